@@ -72,22 +72,22 @@ PROPS = {
                 "with well-formed responses or with responses the client must refuse (too long, bad chunk size, header line without colon) whose last byte arrives with the read that makes the client refuse them; distinct = distinct (scenario, plan hash, event-log hash)",
         "probes_expected": ["after-first", "after-complete-no-body", "after-complete-content-length", "after-complete-chunked", "after-error-413-in-oversized-body",
                             "after-error-400-in-chunked", "after-error-400-in-content-length", "l1-after-first", "l1-after-complete-chunked",
-                            "l1-after-error-413-in-oversized-body", "after-too-long", "after-bad-chunk", "after-bad-header", "after-good"],
+                            "l1-after-error-413-in-oversized-body", "after-too-long", "after-bad-chunk", "after-bad-header", "after-good", "parked-request-timed-out"],
         "assumptions": ["every message starts in a new segment (pipelining inside one read is outside the statement)",
                         "an abandoned message ends with the segment that triggers the framework's error answer"],
-        "quick": {"batches": [("c04_l0", "plain", 40000), ("c04_l1", "plain", 8000), ("c04_l0", "asan", 4000), ("c04_client", "plain", 12000), ("c04_client", "asan", 1500)], "chunk": 500},
-        "thorough": {"batches": [("c04_l0", "plain", 400000), ("c04_l1", "plain", 40000), ("c04_l0", "asan", 40000), ("c04_l1", "asan", 4000), ("c04_client", "plain", 150000), ("c04_client", "asan", 15000)], "chunk": 500},
+        "quick": {"batches": [("c04_l0", "plain", 40000), ("c04_l1", "plain", 8000), ("c04_l0", "asan", 4000), ("c04_client", "plain", 12000), ("c04_client", "asan", 1500), ("c04_timeout", "plain", 4000)], "chunk": 500},
+        "thorough": {"batches": [("c04_l0", "plain", 400000), ("c04_l1", "plain", 40000), ("c04_l0", "asan", 40000), ("c04_l1", "asan", 4000), ("c04_client", "plain", 150000), ("c04_client", "asan", 15000), ("c04_timeout", "plain", 40000), ("c04_timeout", "asan", 4000)], "chunk": 500},
     },
     "C08": {
         "rule": "1..4 rounds of 1..6 concurrent connections against Http::Endpoint (75 %) or a raw Tcp::Listener (25 %), client behaviour drawn per "
-                "connection from 29 kinds (orderly, close mid-request, half-close, RST idle / with unread data / with pending writes, silence, partial "
+                "connection from 32 kinds (orderly, close mid-request, half-close, RST idle / with unread data / with pending writes, silence, partial "
                 "request then silence, giving up near the idle time-out, stalled reader across idle scans - also one that sends again the moment it wakes up -, response time-outs armed/disarmed, file "
                 "responses completed or aborted, replies from another thread aborted, never answered, chunked streams, reset right behind a request); a tenth of the runs each concentrate on clients that leave at about the moment "
                 "an application thread answers them, and on streamed responses (flush) next to clients that reset; thread stalls and slow thread starts injected; " + NONTRIVIAL,
         "probes_expected": ["behaviour-" + b for b in ["orderly", "close-mid-request", "half-close", "rst-idle", "rst-unread", "rst-pending", "silence",
                             "partial-then-silence", "tmo", "tmoreply", "file", "file-abort", "async-abort", "never-close", "stream",
                             "silence-close-near-timeout", "silence-abort-near-timeout", "stall-beyond-timeout",
-                            "abandon-at-once-close", "abandon-at-once-abort", "abandon-at-once-half-close", "tmo-then-close", "tmo-then-abort", "stall-resume-trickle", "request-then-abort-quickly", "async-close", "tmo-moved", "stall-then-leave", "stream-then-abort-quickly"]],
+                            "abandon-at-once-close", "abandon-at-once-abort", "abandon-at-once-half-close", "tmo-then-close", "tmo-then-abort", "stall-resume-trickle", "request-then-abort-quickly", "async-close", "tmo-moved", "stall-then-leave", "stream-then-abort-quickly", "busy", "tmo-park", "notify"]],
         "assumptions": ["the descriptor census is taken after all clients are gone and the longest time-out plus 1.5 s have elapsed"],
         "quick": {"batches": [("c08_lifecycle", "plain", 15000), ("c08_moved_timeout", "plain", 64), ("c08_moved_timeout", "asan", 64), ("c08_lifecycle", "asan", 1500), ("c08_lifecycle", "tsan", 500), ("c08_lifecycle", "tsanat", 4000)], "chunk": 100},
         "thorough": {"batches": [("c08_lifecycle", "plain", 80000), ("c08_moved_timeout", "plain", 500), ("c08_moved_timeout", "asan", 500), ("c08_lifecycle", "asan", 8000), ("c08_lifecycle", "tsan", 8000), ("c08_lifecycle", "tsanat", 30000)], "chunk": 200},
@@ -109,7 +109,7 @@ PROPS = {
                 "against per-connection socket buffers/segment sizes/latencies and reader pacing drawn per run; short writes, would-block, spurious "
                 "EAGAIN, EINTR and per-call caps injected by the simulated kernel; " + NONTRIVIAL,
         "probes_expected": ["eagain-branch", "short-write", "write-from-foreign-thread", "file-buffer", "file-buffer-with-would-block",
-                            "input-without-write-while-writes-pending", "http-size", "http-async", "http-file", "http-stream"],
+                            "input-without-write-while-writes-pending", "http-size", "http-async", "http-file", "http-stream", "http-astream"],
         "assumptions": ["liveness is judged 20 simulated seconds beyond three times what the reader's own pace needs"],
         "quick": {"batches": [("c06_writes", "plain", 8000), ("c06_small", "plain", 10000), ("c06_http", "plain", 8000), ("c06_small", "tsan", 3000), ("c06_http", "tsan", 800), ("c06_small", "tsanat", 3000)], "chunk": 100},
         "thorough": {"batches": [("c06_writes", "plain", 150000), ("c06_small", "plain", 150000), ("c06_http", "plain", 150000), ("c06_small", "tsan", 30000), ("c06_small", "asan", 30000), ("c06_http", "tsan", 15000), ("c06_http", "asan", 15000), ("c06_small", "tsanat", 30000), ("c06_http", "tsanat", 3000)], "chunk": 500},
@@ -118,7 +118,7 @@ PROPS = {
         "rule": "one worker; connection 0 requests 1..4 responses larger than its buffers and stops reading for 0.2..3 s; 1..3 neighbour connections "
                 "issue small requests before, during and after the stall; c07_http: the same through the HTTP layer (one worker; the stalled connection asks for fixed-length responses, "
                 "replies from an application thread, files and chunked streams whose handler flushes every chunk on the worker thread; keep-alive neighbours); " + NONTRIVIAL,
-        "probes_expected": ["eagain-branch", "short-write", "stalled-size", "stalled-async", "stalled-file", "stalled-stream"],
+        "probes_expected": ["eagain-branch", "short-write", "stalled-size", "stalled-async", "stalled-file", "stalled-stream", "stalled-astream"],
         "assumptions": ["latency bound for neighbours: 100 simulated ms (quanta are microseconds; no thread stalls are injected in this scenario)"],
         "quick": {"batches": [("c07_stall", "plain", 3000), ("c06_writes", "plain", 4000), ("c07_http", "plain", 5000), ("c07_http", "asan", 500)], "chunk": 50},
         "thorough": {"batches": [("c07_stall", "plain", 30000), ("c06_writes", "plain", 50000), ("c07_http", "plain", 60000), ("c07_http", "asan", 5000), ("c07_http", "tsan", 5000)], "chunk": 200},
@@ -128,7 +128,7 @@ PROPS = {
                 "unrouted paths (404/405) and methods without any route; shutdown() after the load or at a drawn instant in the middle of it, then "
                 "destruction; thread stalls injected; plain and ThreadSanitizer builds; e2e_client_server: the endpoint (1..3 workers, replies also from an application thread, streams, files) "
                 "under the real HTTP client instead of scripted peers, shut down in mid-load in a fifth of the runs; " + NONTRIVIAL,
-        "probes_expected": ["blocking-serve", "kind-echo", "kind-async", "kind-stream", "shutdown-idle", "shutdown-with-load", "shutdown-with-connections-open", "shutdown-with-requests-in-flight",
+        "probes_expected": ["aborted-at-accept", "shutdown-from-handler", "blocking-serve", "kind-echo", "kind-async", "kind-stream", "shutdown-idle", "shutdown-with-load", "shutdown-with-connections-open", "shutdown-with-requests-in-flight",
                             "method-not-allowed", "not-found", "method-without-route-table", "late-client"],
         "assumptions": [],
         "quick": {"batches": [("c09_serving", "plain", 15000), ("c09_serving", "tsan", 2500), ("c09_serving", "tsanat", 6000),
@@ -164,7 +164,7 @@ PROPS = {
         "rule": "plans (1..4 producers x 1..5 pushes, start delays, gaps, prefill, pollable or plain queue) and schedules "
                 "(uniform random / PCT / sticky) drawn from VERIF_SEED; c13_transport: the queues' real consumers - the event loops of Tcp::Transport - with 2..8 connections arriving at about "
                 "the same time on 1..2 workers and an application thread that arms response time-outs (timers queue) and sends replies (writes queue) for them back to back; " + NONTRIVIAL,
-        "probes_expected": ["consumer-woken", "prefilled-before-consumer", "plain-queue", "kind-tmoasync", "kind-async"],
+        "probes_expected": ["consumer-woken", "prefilled-before-consumer", "plain-queue", "kind-tmoasync", "kind-async", "kind-async-gone", "kind-busy"],
         "assumptions": ["single consumer (as in Pistache's own use of the queue)"],
         "quick": {"batches": [("c13_queue", "plain", 150000), ("c13_queue", "tsan", 15000), ("c13_queue", "tsanat", 30000), ("c13_transport", "plain", 20000), ("c13_transport", "tsan", 2000)], "chunk": 2000},
         "thorough": {"batches": [("c13_queue", "plain", 1000000), ("c13_queue", "tsan", 150000), ("c13_queue", "tsanat", 300000), ("c13_transport", "plain", 300000), ("c13_transport", "tsan", 30000), ("c13_transport", "tsanat", 30000)], "chunk": 5000},
@@ -181,7 +181,7 @@ MANIFEST_TEXT = {
             "design_ref": "4.1", "note": "differential oracle against the same build (no second opinion about HTTP); the exhaustive sub-space is per generated message, the space of messages is sampled; " + SC_NOTE},
     "C04": {"level": "seeded search over message sequences x segmentations x abandon points, differential between a reused and a fresh parser / connection",
             "design_ref": "4.3", "note": "the L0 part drives the parser with the reset protocol of Handler::onInput; the reset call sites themselves are exercised by the L1 part (real endpoint) and by C15 (real client); " + SC_NOTE},
-    "C08": {"level": "seeded search over connection-event histories (29 client behaviours, 1..6 concurrent connections, several rounds) with callback-sequence, exactly-once-release, descriptor-census and peer-release oracles",
+    "C08": {"level": "seeded search over connection-event histories (32 client behaviours, 1..6 concurrent connections, several rounds) with callback-sequence, exactly-once-release, descriptor-census and peer-release oracles",
             "design_ref": "4.6", "note": "double releases are observed by the simulated kernel (close / epoll_ctl / I/O on a descriptor that is not open); " + SC_NOTE},
     "C14": {"level": "seeded search over request sizes around the drawn limit x segmentations, and over stall points x stall durations on either side of the drawn time-outs, on the simulated clock",
             "design_ref": "4.11", "note": "durations within 0.3 s below / 0.8 s above a time-out are not judged; " + SC_NOTE},
